@@ -92,16 +92,18 @@ def drive(api, calls, enc, notset):
         try:
             if op == 'iterate':
                 e['rl'] = [enc.iter_entry(x) for x in api.iterate()]
-                e['r'] = {'t': 'list', 'v': len(e['rl'])}
+                e['r'] = {'t': RS.LIST, 'v': len(e['rl'])}
             elif op == 'iterate_map':
                 e['rl'] = [enc.mapkey(x) for x in api.iterate_map(c['key'])]
-                e['r'] = {'t': 'list', 'v': len(e['rl'])}
+                e['r'] = {'t': RS.LIST, 'v': len(e['rl'])}
             elif op == 'clear':
                 e['r'] = enc.result(api.clear(), notset)
             elif op == 'set':
                 e['r'] = enc.result(api.set(c['key'], c['value']), notset)
             elif op in ('add_map', 'get_map', 'del_map'):
-                e['r'] = enc.result(getattr(api, op)(c['key'], c['mk']), notset, True)
+                e['r'] = enc.result(getattr(api, op)(c['key'], c['mk']), notset, 'index')
+            elif op in ('get', 'is_set', 'is_cleared'):
+                e['r'] = enc.result(getattr(api, op)(c['key']), notset, 'value')
             else:
                 e['r'] = enc.result(getattr(api, op)(c['key']), notset)
         except Exception as ex:     # an exception is an observable result of the call
